@@ -831,6 +831,14 @@ fn evaluate(plan: &PlanB, kernel: &Arc<Kernel>, sh: &Sh, sent_at_ns: &[u64], _en
             match plan.route_for(&q.qname) {
                 None => Expect::ServFail,
                 Some(RouteKind::Nx) => Expect::NxDomain,
+                Some(RouteKind::ForwardNowhere) => {
+                    /* undocumented outcome: only liveness is judged */
+                    res.probe("C05.query_under_forward_route_without_servers");
+                    if q.liveness_probe && !g_responded(&g, &outs, q, qi) {
+                        res.violate("C05", if q.tcp { "C05.dns_service_stopped_answering.tcp" } else { "C05.dns_service_stopped_answering.udp" }, format!("well-formed query {} under a forward route that lists no servers got no response at all", q.qname.to_text()), qi);
+                    }
+                    continue;
+                }
                 Some(RouteKind::Forward(u)) => {
                     if q.rd {
                         Expect::Forward(*u)
@@ -1085,6 +1093,25 @@ fn evaluate(plan: &PlanB, kernel: &Arc<Kernel>, sh: &Sh, sent_at_ns: &[u64], _en
                     } else if key_count[&key_of(q)] > 1 {
                         res.probe("C06.repeated_key_resolved_upstream");
                     }
+                    /* Whatever the path: data handed over by an upstream at t_h and sent on at
+                     * t_out has been held for t_out - t_h; held longer than its smallest TTL it
+                     * is stale (a reply relayed by the query that fetched it is held for no
+                     * simulated time at all).  UDP only: the send instant is exact. */
+                    if !q.tcp && !from_cache {
+                        let held_ns = at_ns.saturating_sub(rep.handed_hi_ns);
+                        let min_ttl = um.answer.iter().chain(um.authority.iter()).chain(um.additional.iter()).filter(|r| r.rtype != T_OPT).map(|r| r.ttl).min().unwrap_or(0);
+                        if held_ns > 0 {
+                            res.probe("C06.reply_held_before_it_was_sent_on");
+                        }
+                        if held_ns > min_ttl as u64 * 1_000_000_000 && held_ns > 50_000_000 {
+                            res.violate(
+                                "C06",
+                                "C06.stale_data_sent",
+                                format!("reply #{} (min TTL {} s) reached erbium at {} ns and was sent to {} at {} ns, {} ns later, in answer to a query that arrived before it", rep.serial, min_ttl, rep.handed_hi_ns, q.src_ip, at_ns, held_ns),
+                                qi,
+                            );
+                        }
+                    }
                     // ---- C03 / C04: sections, truncation
                     let up_add = um.non_opt_additional();
                     let expected: [&[Rr]; 3] = [&um.answer, &um.authority, &up_add];
@@ -1256,6 +1283,15 @@ fn evaluate(plan: &PlanB, kernel: &Arc<Kernel>, sh: &Sh, sent_at_ns: &[u64], _en
 }
 
 /// No fault touched this query or its upstream exchange (DESIGN.md section 4).
+/// Did anything at all come back for this query?
+fn g_responded(g: &Shared, outs: &[crate::kernel::OutEv], q: &QuerySpec, qi: usize) -> bool {
+    if q.tcp {
+        !g.tcp_frames[qi].is_empty()
+    } else {
+        outs.iter().any(|o| matches!(&o.kind, OutKind::Udp { dst, .. } if dst.ip() == q.src_ip && dst.port() == q.src_port))
+    }
+}
+
 /// The only fault that can have touched this UDP query is loss of some transmissions of
 /// its own upstream exchange.
 fn only_own_udp_loss(plan: &PlanB, q: &QuerySpec) -> bool {
